@@ -5,11 +5,11 @@
 cd /verif
 git -C /repo diff --quiet || { echo "/repo has uncommitted changes"; exit 2; }
 ids="$@"; [ -z "$ids" ] && ids=$(ls harmless | grep '\.diff$' | sed 's/\.diff$//')
-out=harmless/RESULTS.txt; : > $out.tmp
+out=${OUT:-harmless/RESULTS.txt}; : > $out.tmp
 for id in $ids; do
   git -C /repo apply /verif/harmless/$id.diff || { echo "$id patch-does-not-apply" | tee -a $out.tmp; continue; }
   line="$id"
-  for p in C01 C02 C03 C04 C05 C06 C07 C08 C09 C10 C11 C12 C13 C14 C15 C16 C17 C18 C19; do
+  for p in ${CHECKS:-C01 C02 C03 C04 C05 C06 C07 C08 C09 C10 C11 C12 C13 C14 C15 C16 C17 C18 C19}; do
     res=$(./check $p 2>&1 | grep -v "^KNOWN")
     if echo "$res" | grep -q "^VIOLATION"; then
       nconc=$(echo "$res" | grep "^VIOLATION" | grep -vc "no-failing-input-found")
@@ -17,7 +17,7 @@ for id in $ids; do
     fi
   done
   git -C /repo checkout -- . && git -C /repo clean -fdq
-  [ "$line" = "$id" ] && line="$id all-19-green"
+  [ "$line" = "$id" ] && line="$id all-green(${CHECKS:-all 19})"
   echo "$line" | tee -a $out.tmp
 done
 mv $out.tmp $out
